@@ -100,7 +100,7 @@ type verifC04Case struct {
 	// started chain watchers over instances decoded at the last load of each
 	// party (c04cw_test.go).
 	idx int
-	cw  [2][]*verifC04Watch
+	cw  [2][]*verifCwWatch
 }
 
 func verifC04TxHex(tx *wire.MsgTx) string {
@@ -1071,7 +1071,7 @@ func verifC04RunCase(t *testing.T, vc *lnwallet.VerifCtx, i int) {
 func TestVerifC04(t *testing.T) {
 	vc := lnwallet.VerifStart(t, "C04", "breach")
 	defer vc.Finish()
-	defer verifC04CwInstallLog()()
+	defer verifCwInstallLog()()
 	total := vc.N(320, 12000)
 	for i := 0; i < total; i++ {
 		if !vc.Mine(i) {
